@@ -16,6 +16,8 @@ use serde_json::{json, Map, Value};
 use std::collections::BTreeMap;
 
 pub mod msgs;
+pub mod drive;
+pub mod auth;
 
 #[derive(Clone, Default, Debug, PartialEq)]
 pub struct Store(pub BTreeMap<Vec<u8>, Vec<u8>>);
@@ -525,6 +527,7 @@ pub struct Cfg {
     pub t0: u64,
     pub user_funds: u128,
     pub init_vals: Vec<u64>,
+    pub prefix: Vec<Value>,
 }
 
 pub fn dec_of(v: &Value) -> Decimal {
@@ -556,6 +559,7 @@ impl Cfg {
             t0: v["T0"].as_u64().unwrap(),
             user_funds: v["UserFunds"].as_u64().unwrap() as u128,
             init_vals: v["InitVals"].as_array().unwrap().iter().map(|x| x.as_u64().unwrap()).collect(),
+            prefix: v["Prefix"].as_array().cloned().unwrap_or_default(),
         }
     }
     pub fn accts(&self) -> Vec<String> {
@@ -611,6 +615,10 @@ pub fn setup(cfg: &Cfg) -> Chain {
     for u in &cfg.users {
         c.mint_coins(u, "usei", cfg.user_funds);
     }
+    for tx in &cfg.prefix {
+        apply(&mut c, tx);
+    }
+    c.fx.clear();
     c
 }
 
@@ -978,6 +986,38 @@ pub fn apply(c: &mut Chain, tx: &Value) -> Outcome {
                     env_ok(false)
                 }
             }
+        }
+        "deliver" => {
+            c.mint_coins("reward", tx["d"].as_str().unwrap(), tx["a"].as_u64().unwrap() as u128);
+            env_ok(true)
+        }
+        "instantiate_token" => {
+            let addr = tx["c"].as_str().unwrap();
+            let init: Vec<cw20::Cw20Coin> = tx["init"].as_array().map(|a| a.iter().map(|e| cw20::Cw20Coin { address: e["a"].as_str().unwrap().to_string(), amount: Uint128::new(e["x"].as_u64().unwrap() as u128) }).collect()).unwrap_or_default();
+            let r = if addr == "bsei" {
+                c.instantiate(Kind::BSei, "bsei", "owner", to_json_binary(&basset_sei_token_bsei::msg::TokenInitMsg {
+                    name: "bsei".into(), symbol: "BSEI".into(), decimals: 6, initial_balances: init, hub_contract: "hub".into() }).unwrap())
+            } else {
+                c.instantiate(Kind::StSei, "stsei", "owner", to_json_binary(&basset_sei_token_stsei::msg::TokenInitMsg {
+                    name: "stsei".into(), symbol: "STSEI".into(), decimals: 6, initial_balances: init, hub_contract: "hub".into(),
+                    marketing: Some(cw20_base::msg::InstantiateMarketingInfo { project: None, description: None, marketing: Some("owner".into()), logo: None }) }).unwrap())
+            };
+            Outcome { ok: r.is_ok(), err: r.err().unwrap_or_default(), fx: vec![] }
+        }
+        "instantiate" => {
+            let sender = tx["sender"].as_str().unwrap();
+            let r = if tx["c"] == "hub" {
+                c.instantiate(Kind::Hub, "hub", sender, to_json_binary(&basset::hub::InstantiateMsg {
+                    epoch_period: tx["epoch"].as_u64().unwrap(), underlying_coin_denom: "usei".into(), unbonding_period: tx["unbonding"].as_u64().unwrap(),
+                    peg_recovery_fee: dec_of(&tx["fee"]), er_threshold: dec_of(&tx["thr"]), reward_denom: "kusd".into(),
+                    update_reward_index_addr: "updater".into() }).unwrap())
+            } else {
+                c.instantiate(Kind::Dispatcher, "dispatcher", sender, to_json_binary(&basset_sei_rewards_dispatcher::msg::InstantiateMsg {
+                    hub_contract: "hub".into(), bsei_reward_contract: "reward".into(), stsei_reward_denom: "usei".into(), bsei_reward_denom: "kusd".into(),
+                    krp_keeper_address: "keeper".into(), krp_keeper_rate: dec_of(&tx["rate"]), swap_contract: "swap".into(),
+                    swap_denoms: vec!["usei".into(), "kusd".into(), "ufor".into()], oracle_contract: "oracle".into() }).unwrap())
+            };
+            Outcome { ok: r.is_ok(), err: r.err().unwrap_or_default(), fx: vec![] }
         }
         "set_ext" => {
             c.swap_mode = tx["swap"].as_str().unwrap().into();
